@@ -339,13 +339,18 @@ PLANS = {
                 gen=[G("cut", 300, 10000, "TraceLayout", "TraceLayout_C15.cfg"),
                      # the files the sorter writes itself (spilled and merged chunks)
                      G("chunks", 48, 1500, "TraceLayout", "TraceLayout_C15.cfg")]),
-    "C17": dict(level="other", extra=[sorter_model(["a", "b", "c"], 30, 400)], explanation="Partial: decides the allocation protocol (layout equality, guard words, double free, leak of the sorter buffer class), the sorter's two-ended buffer bookkeeping (hook H2) and arithmetic overflow (checked build) on executions of the real code, validated by TLC against Alloc.tla. Out-of-bounds READS, use of freed memory through a lifetime-extended reference, alignment and provenance violations leave no trace in these events and are NOT decided (needs Miri/ASan, a different technique family).",
+    "C17": dict(level="other", crash_is_violation=True, extra=[sorter_model(["a", "b", "c"], 30, 400)], explanation="Partial: decides the allocation protocol (layout equality, guard words, double free, leak of the sorter buffer class), the sorter's two-ended buffer bookkeeping (hook H2) and arithmetic overflow (checked build) on executions of the real code, validated by TLC against Alloc.tla. Out-of-bounds READS, use of freed memory through a lifetime-extended reference, alignment and provenance violations leave no trace in these events and are NOT decided (needs Miri/ASan, a different technique family).",
                 assumptions=TRUST + ["monitoring global allocator of the harness process (header + canaries per block)", "hook H2 exposes the sorter's buffer accounting", "overflow checks of the dev-profile build"],
                 mc=[MC("MCSorter", "MCSorter_acct_realloc.cfg", workers=4), MC("MCSorter", "MCSorter_acct_fixed.cfg", workers=4),
                     MC("MCSorter", "MCSorter_acct_big.cfg", workers=4)],
                 gen=[G("alloc", 240, 8000, "TraceAlloc", "TraceAlloc.cfg"),
                      G("alloc", 60, 1000, "TraceSorterB", "TraceSorterB.cfg", drift=True),
-                     G("alloc_readers", 40, 1200, "TraceAlloc", "TraceAlloc.cfg")]),
+                     G("alloc_readers", 40, 1200, "TraceAlloc", "TraceAlloc.cfg"),
+                     # borrowed keys / values handed out by the read paths: freed memory is poisoned by the
+                     # monitoring allocator, so a dangling reference yields bytes no contract accepts
+                     G("history", 80, 2000, "TraceCursor", "TraceCursor.cfg"),
+                     G("merge", 120, 3000, "TraceMerger", "TraceMerger.cfg"),
+                     G("prefixes", 40, 800, "TraceIter", "TraceIter.cfg")]),
     # not a listed property: the rest of the public surface (Api.tla), run with `bin/check X01`;
     # its evidence goes to out/, it is not registered in MANIFEST.json
     "X01": dict(level="other", explanation="Specification growth beyond the listed properties: codec names, defaults, finish vs into_inner, accessors, fused and cloned iterators, forwarding of merge functions (Api.tla).",
@@ -362,6 +367,6 @@ PLANS = {
                     MC("MCCursor_t48", "MCCursor_t48_fixed.cfg", workers=8, quick=False, timeout=7200)],
                 gen=[G("history", 160, 6000, "TraceCursor", "TraceCursor.cfg"),
                      # exhaustive exploration of the implementation's own reachable cursor states (hook H1)
-                     G("explore", 9, 9, "TraceCursor", "TraceCursor.cfg", timeout=7200, tlc_timeout=7200)],
+                     G("explore", 10, 10, "TraceCursor", "TraceCursor.cfg", timeout=7200, tlc_timeout=7200)],
                 extra=[cursor_model([15, 59], [0, 2, 15, 59, 50], 200, 12)]),
 }
